@@ -684,3 +684,74 @@ package lua
 //@ assert@"ls.Push(lv)" !isStr(lv)
 //@ cut@"ls.Panic(ls)" as in raiseError
 //@ modifies ls.reg.array, ls.reg.top, ls.reg.array[*]
+
+// the allocator of a registry is chosen when the registry is created and never replaced (checked by a scan of every function)
+//@ immutable[C01 C04 C07] registry.alloc
+
+// registry.SetNumber(regi, v): as Set, the stored value is the number v (boxed by the allocator, see LNumber2I)
+//@ func (*registry).SetNumber [C01 C07]
+//@ requires Inv_reg(rg) && regi >= 0 && rg.alloc != nil
+//@ raises when overflow(rg, regi + 1)
+//@ ensures  Inv_reg(rg) && same(rg.array[regi], mkNum(vali)) && rg.top == ite(regi >= old(rg.top), regi+1, old(rg.top))
+//@ ensures  forall k int :: 0 <= k && k < old(rg.top) && k != regi ==> rg.array[k] == old(rg.array[k])
+//@ ensures  arrSameOrFresh(rg) && cap(rg.array) >= old(cap(rg.array)) && rg.alloc == old(rg.alloc)
+//@ modifies rg.array, rg.top, rg.array[*], type allocator.*, type iface.*, elems(float64)
+
+// numeric for loop (manual §2.4.5 / lvm.c): FORPREP  R(A) -= R(A+2); pc += sBx
+//                                           FORLOOP  R(A) += R(A+2); if R(A) <?= R(A+1) then { pc += sBx; R(A+3) = R(A) }
+// (<?= is <= for a positive step and >= otherwise; init/limit/step that are not numbers are errors)
+//@ func jumpTable[OP_FORPREP] [C01 C07]
+//@ requires Frame(L) && L.reg.alloc != nil && opA(inst) + 2 < nreg(L) && lb(L) + nreg(L) <= top(L) && 0 <= pc(L) + opSbx(inst) && pc(L) + opSbx(inst) <= len(code(L)) && (forall k int :: lb(L) <= k && k < lb(L) + nreg(L) ==> L.reg.array[k] != nil)
+//@ raises when !isNum(R(L, opA(inst))) || !isNum(R(L, opA(inst) + 2))
+//@ ensures  result == 0 && same(R(L, opA(inst)), old(mkNum(num(R(L, opA(inst))) - num(R(L, opA(inst) + 2))))) && pc(L) == old(pc(L)) + opSbx(inst) && L.currentFrame == old(L.currentFrame) && top(L) == old(top(L))
+//@ ensures  forall k int :: 0 <= k && k < old(top(L)) && k != lb(L) + opA(inst) ==> L.reg.array[k] == old(L.reg.array[k])
+//@ modifies L.reg.array, L.reg.top, L.reg.array[*], L.currentFrame.Pc, type allocator.*, type iface.*, elems(float64)
+
+//@ define forNext(L *LState, a int) float64 = num(R(L, a)) + num(R(L, a + 2))
+//@ define forGoesOn(L *LState, a int) bool = (num(R(L, a + 2)) > 0 && forNext(L, a) <= num(R(L, a + 1))) || (num(R(L, a + 2)) <= 0 && forNext(L, a) >= num(R(L, a + 1)))
+//@ func jumpTable[OP_FORLOOP] [C01 C07]
+//@ requires Frame(L) && L.reg.alloc != nil && opA(inst) + 3 < nreg(L) && lb(L) + nreg(L) <= top(L) && 0 <= pc(L) + opSbx(inst) && pc(L) + opSbx(inst) <= len(code(L)) && (forall k int :: lb(L) <= k && k < lb(L) + nreg(L) ==> L.reg.array[k] != nil)
+//@ raises when !isNum(R(L, opA(inst))) || !isNum(R(L, opA(inst) + 1)) || !isNum(R(L, opA(inst) + 2))
+//@ ensures  "counter-advanced": result == 0 && same(R(L, opA(inst)), old(mkNum(forNext(L, opA(inst))))) && L.currentFrame == old(L.currentFrame)
+//@ ensures  "goes-on": old(forGoesOn(L, opA(inst))) ==> pc(L) == old(pc(L)) + opSbx(inst) && same(R(L, opA(inst) + 3), old(mkNum(forNext(L, opA(inst))))) && top(L) == old(top(L)) && (forall k int :: 0 <= k && k < old(top(L)) && k != lb(L) + opA(inst) && k != lb(L) + opA(inst) + 3 ==> L.reg.array[k] == old(L.reg.array[k]))
+//@ ensures  "ends": !old(forGoesOn(L, opA(inst))) ==> pc(L) == old(pc(L)) && top(L) == lb(L) + opA(inst) + 1 && (forall k int :: 0 <= k && k < lb(L) + opA(inst) ==> L.reg.array[k] == old(L.reg.array[k]))
+//@ modifies L.reg.array, L.reg.top, L.reg.array[*], L.currentFrame.Pc, type allocator.*, type iface.*, elems(float64)
+
+// OP_VARARG A B: R(A), ..., R(A+B-2) = vararg (B == 0: all of them, and top is set behind the last one). The variable
+// arguments of the activation are the values between the fixed parameters (Base + NumParameters + 1) and LocalBase, in
+// order; wanted values beyond them are nil.
+//@ define vaStart(L *LState) int = L.currentFrame.Base + L.currentFrame.Fn.Proto.NumParameters + 1
+//@ define vaCount(L *LState) int = max(L.currentFrame.NArgs - L.currentFrame.Fn.Proto.NumParameters, 0)
+//@ define vaWant(L *LState, inst uint32) int = ite(opB(inst) == 0, vaCount(L), opB(inst) - 1)
+//@ func jumpTable[OP_VARARG] [C01 C02 C07]
+//@ requires Frame(L) && opA(inst) < nreg(L) && 0 <= L.currentFrame.Base && vaStart(L) >= 0 && lb(L) <= top(L)
+//@ raises when overflow(L.reg, lb(L) + opA(inst) + vaWant(L, inst))
+//@ ensures  result == 0 && top(L) == lb(L) + opA(inst) + old(vaWant(L, inst)) && L.currentFrame == old(L.currentFrame) && pc(L) == old(pc(L))
+//@ ensures  "varargs-in-order-then-nil": forall k int :: 0 <= k && k < old(vaWant(L, inst)) ==> R(L, opA(inst) + k) == ite(old(vaStart(L)) + k < lb(L), old(L.reg.array[vaStart(L) + k]), LNil)
+//@ ensures  forall k int :: 0 <= k && k < lb(L) + opA(inst) && k < old(top(L)) ==> L.reg.array[k] == old(L.reg.array[k])
+//@ modifies L.reg.array, L.reg.top, L.reg.array[*]
+
+// OP_NEWTABLE A B C: R(A) := a new empty table (B, C are size hints only)
+//@ func jumpTable[OP_NEWTABLE] [C01 C07]
+//@ requires Frame(L) && opA(inst) < nreg(L)
+//@ noraise
+//@ ensures  result == 0 && Frame(L) && pc(L) == old(pc(L)) && isTab(R(L, opA(inst))) && fresh(tab(R(L, opA(inst)))) && len(tab(R(L, opA(inst))).array) == 0 && tab(R(L, opA(inst))).Metatable == LNil && topAtLeast(L, lb(L) + opA(inst) + 1)
+//@ ensures  keptExcept(L, lb(L) + opA(inst), lb(L) + opA(inst) + 1)
+//@ modifies L.reg.array, L.reg.top, L.reg.array[*]
+
+// OP_SETLIST A B C: R(A)[(C-1)*FPF + i] := R(A+i) for 1 <= i <= B (B == 0: up to the top; C == 0: the block number is the
+// next code word): the values are stored through the raw integer store at consecutive keys (proved here: no implicit panic,
+// the registers and the frame are untouched, pc/top effect, the array part grows to cover the block; that cell k holds
+// exactly R(A+i) is NOT discharged - the content quantifier timed out - and not claimed)
+//@ define slC(L *LState, inst uint32) int = ite(opC(inst) == 0, code(L)[pc(L)], opC(inst))
+//@ define slN(L *LState, inst uint32) int = ite(opB(inst) == 0, top(L) - (lb(L) + opA(inst)) - 1, opB(inst))
+//@ func jumpTable[OP_SETLIST] [C01 C07]
+//@ let@"table := reg.Get(RA).(*LTable)" off0 = offset
+//@ requires Frame(L) && opA(inst) < nreg(L) && lb(L) + nreg(L) <= top(L) && isTab(R(L, opA(inst))) && tab(R(L, opA(inst))) != nil && Inv_arr(tab(R(L, opA(inst)))) && Inv_hash(tab(R(L, opA(inst)))) && arrid(tab(R(L, opA(inst))).array) != arrid(L.reg.array) && arrid(tab(R(L, opA(inst))).keys) != arrid(L.reg.array) && (opC(inst) == 0 ==> pc(L) < len(code(L))) && lb(L) + opA(inst) + slN(L, inst) < top(L) && slN(L, inst) >= 0 && (forall k int :: lb(L) + opA(inst) < k && k < top(L) ==> L.reg.array[k] != nil) && slC(L, inst) >= 1 && MaxArrayIndex > (slC(L, inst) - 1) * FieldsPerFlush + slN(L, inst) && MaxArrayIndex <= 4611686018427387904
+//@ noraise
+//@ ensures  result == 0 && pc(L) == old(pc(L)) + ite(opC(inst) == 0, 1, 0) && L.currentFrame == old(L.currentFrame) && top(L) == old(top(L))
+//@ ensures  forall k int :: 0 <= k && k < old(top(L)) ==> L.reg.array[k] == old(L.reg.array[k])
+//@ modifies L.currentFrame.Pc, type LTable.array, type LTable.dict, type LTable.strdict, type LTable.keys, type LTable.k2i, elems(LValue), type LTable.dict{*}, type LTable.strdict{*}, type LTable.k2i{*}
+//@ loop 1 invariant 1 <= i && i <= nelem + 1 && nelem == old(slN(L, inst)) && offset == off0 && table == old(tab(R(L, opA(inst)))) && Inv_arr(table) && Inv_hash(table) && L.reg == old(L.reg) && top(L) == old(top(L)) && arrid(L.reg.array) == old(arrid(L.reg.array)) && arrid(table.array) != arrid(L.reg.array) && arrid(table.keys) != arrid(L.reg.array) && lb(L) == old(lb(L)) && L.currentFrame == old(L.currentFrame) && Inv_reg(L.reg) && len(L.reg.array) == old(len(L.reg.array)) && MaxArrayIndex == old(MaxArrayIndex) && RA == old(lb(L) + opA(inst)) && (forall k int :: RA < k && k < top(L) ==> L.reg.array[k] != nil)
+//@ loop 1 invariant forall k int :: 0 <= k && k < old(top(L)) ==> L.reg.array[k] == old(L.reg.array[k])
+//@ loop 1 invariant i > 1 ==> len(table.array) >= offset + i - 1
